@@ -157,7 +157,8 @@ def run(ctx):
     ljobs, lmeta = [], []
     for si, st in enumerate(sets):
         n = len(st["es"])
-        pers = sorted({2, 3, 5, n, n + 1, 10000000})
+        # the code documents and enforces events_per_file >= 2 ("has to be larger than 1"): never ask for 1
+        pers = sorted({2, 3, 5, max(n, 2), n + 1, 10000000})
         if not ctx.thorough:
             pers = [2] + rng.sample(pers[1:], 2)
         for per in pers:
